@@ -138,7 +138,7 @@ GEN_OUTPUT = {
     "validators": "Validators.lean", "comparators": "Comparators.lean", "operand_order": "OperandOrder.lean",
     "facts": "Facts.lean", "accessor": "AccessorGo.lean", "functions": "FunctionsGo.lean", "errors": "ErrorsGo.lean",
     "queries": "QueriesGo.lean", "nodes": "NodesGo.lean", "parsewrap": "ParseWrapGo.lean",
-    "parser_helpers": "ParserHelpersGo.lean", "actions": "ActionsGo.lean", "pegrules": "PegGoRules.lean", "errtexts": "ErrTexts.lean", "configgo": "ConfigGo.lean",
+    "parser_helpers": "ParserHelpersGo.lean", "actions": "ActionsGo.lean", "pegrules": "PegGoRules.lean", "pegruntime": "PegRuntimeGo.lean", "errtexts": "ErrTexts.lean", "configgo": "ConfigGo.lean",
 }
 
 
